@@ -1,6 +1,6 @@
 (* C10: invariant of the tcpassembly half-connection model and its consequences *)
 From GP Require Import Base C10Model C10Arith.
-From Coq Require Import Lia ZifyBool.
+From Coq Require Import Lia ZifyBool Sorted.
 Open Scope Z_scope.
 
 (* ---------------------------------------------------------------- slices of the sender's stream *)
@@ -768,3 +768,96 @@ Lemma init_ok mp mt : state_ok (init mp mt) None.
 Proof. split; reflexivity. Qed.
 
 End Stream.
+
+(* ---------------------------------------------------------------- the in-order path *)
+(* A segment whose sequence number is exactly nextSeq, arriving on a connection with nothing
+   buffered, is handed over at once, whole, with Skip = 0, and nextSeq advances by its
+   length (mod 2^32); FIN/RST closes the connection.  No hypothesis on the stream. *)
+Lemma inorder_path st c ns fin rst payload ts :
+  s_dead st = false -> s_conn st = Some c -> c_queue c = [] -> c_nextSeq c = ns ->
+  0 <= ns < uint32Size -> (payload <> [] \/ fin = true \/ rst = true) ->
+  let r := step st (Segment ns false fin rst payload ts) in
+  o_calls (snd r) = [[mkR payload 0 false (rst || fin) ts 0]] /\
+  o_new (snd r) = false /\ o_panic (snd r) = false /\ o_done (snd r) = (rst || fin) /\
+  (if rst || fin then s_conn (fst r) = None
+   else exists c', s_conn (fst r) = Some c' /\ c_nextSeq c' = seq_add ns (lenZ payload) /\ c_queue c' = []).
+Proof.
+  intros Hd Hc Hq Hns Hr Hne. unfold step. rewrite Hd. unfold assemble.
+  assert (Hu : negb false && negb fin && negb rst && isnil payload = false).
+  { destruct payload; destruct fin; destruct rst; try reflexivity. destruct Hne as [H|[H|H]]; congruence. }
+  rewrite Hu, Hc. unfold assemble_locked, assemble_conn.
+  assert (Hcc : forall c1 : conn, c_queue c1 = [] -> c_nextSeq c1 = ns ->
+    let r := finish_assemble st false
+      (if c_nextSeq c1 =? invalidSequence then
+         if false then Ok (mkW (mkC (c_pages c1) (c_queue c1) (seq_add ns (lenZ payload + 1)) (c_lastSeen c1)) (s_used st) [mkR payload 0 true false ts 0])
+         else insert_into_conn (s_maxPer st) (s_maxTotal st) ns payload (rst || fin) ts (mkW c1 (s_used st) [])
+       else if difference (c_nextSeq c1) (if false && negb (c_nextSeq c1 =? invalidSequence) then seq_add ns 1 else ns) >? 0 then
+         insert_into_conn (s_maxPer st) (s_maxTotal st) ns payload (rst || fin) ts (mkW c1 (s_used st) [])
+       else let '(b, nx) := byte_span (c_nextSeq c1) (if false && negb (c_nextSeq c1 =? invalidSequence) then seq_add ns 1 else ns) payload in
+         Ok (mkW (mkC (c_pages c1) (c_queue c1) nx (c_lastSeen c1)) (s_used st) [mkR b 0 false (rst || fin) ts (lenZ payload - lenZ b)])) in
+    o_calls (snd r) = [[mkR payload 0 false (rst || fin) ts 0]] /\
+    o_new (snd r) = false /\ o_panic (snd r) = false /\ o_done (snd r) = (rst || fin) /\
+    (if rst || fin then s_conn (fst r) = None
+     else exists c', s_conn (fst r) = Some c' /\ c_nextSeq c' = seq_add ns (lenZ payload) /\ c_queue c' = [])).
+  { intros c1 Hq1 Hn1. rewrite Hn1, Hq1. cbn [andb].
+    replace (ns =? invalidSequence) with false by (unfold invalidSequence, uint32Size in *; lia).
+    rewrite diff_self. cbn [Z.gtb Z.compare].
+    unfold byte_span. replace (ns =? invalidSequence) with false by (unfold invalidSequence, uint32Size in *; lia).
+    rewrite diff_self. cbn [Z.leb Z.compare]. rewrite Z.sub_diag.
+    unfold finish_assemble, send_to_connection, add_contiguous. cbn.
+    destruct (rst || fin); cbn; repeat split; try reflexivity.
+    eexists; repeat split; reflexivity. }
+  destruct (c_lastSeen c <? ts); apply Hcc; cbn [c_queue c_nextSeq]; assumption.
+Qed.
+
+(* ---------------------------------------------------------------- sorted queue under insertion *)
+Section Sorted.
+Variable i : Z.
+Variable hi : Z.
+Hypothesis Hhi : hi < quarter.
+
+(* page p sits at stream offset o *)
+Definition at_off (p : page) (o : Z) : Prop := p_seq p = sq i o /\ 0 <= o <= hi.
+
+(* traverseConn finds the place that keeps the offsets ordered: everything before the
+   insertion point is at or before o, everything after it strictly after o *)
+Lemma traverse_sorted q : forall offs o a b,
+  Forall2 at_off q offs -> StronglySorted Z.le offs -> 0 <= o <= hi ->
+  traverse q (sq i o) = (a, b) ->
+  exists oa ob, offs = oa ++ ob /\ Forall2 at_off a oa /\ Forall2 at_off b ob /\
+                Forall (fun x => x <= o) oa /\ Forall (fun x => o < x) ob.
+Proof.
+  induction q as [|p t IH]; intros offs o a b HF HS Ho HT.
+  - inversion HF; subst. cbn in HT. inversion HT; subst. exists [], []. repeat split; constructor.
+  - inversion HF as [|p' op t' ot Hp Ht]; subst. cbn [traverse] in HT.
+    destruct (traverse t (sq i o)) as [a1 b1] eqn:E.
+    inversion HS as [|x l HS' Hall]; subst.
+    destruct (IH ot o a1 b1 Ht HS' Ho E) as (oa1 & ob1 & Hsplit & Ha1 & Hb1 & Hle & Hgt).
+    destruct a1 as [|x a1'].
+    + inversion Ha1; subst. cbn [app] in *.
+      destruct Hp as [Hseq Hop]. rewrite Hseq in HT.
+      rewrite diff_sq in HT by (unfold quarter in *; lia).
+      destruct (o - op <? 0) eqn:D; inversion HT; subst.
+      * exists [], (op :: ob1). repeat split; try constructor; try assumption; try lia; split; assumption.
+      * exists [op], ob1. repeat split; try constructor; try assumption; try constructor; try lia; split; assumption.
+    + inversion HT; subst. exists (op :: oa1), ob1.
+      inversion Ha1 as [|x1 o1 a1'' oa1' Hx Hrest]; subst.
+      repeat split; try assumption.
+      * constructor; assumption.
+      * constructor; [|assumption]. inversion Hle; subst.
+        rewrite Forall_forall in Hall. specialize (Hall o1 ltac:(apply in_or_app; left; left; reflexivity)). lia.
+Qed.
+
+(* hence inserting a one-page segment keeps the queue sorted by offset *)
+Lemma insert_one_sorted oa ob o :
+  StronglySorted Z.le (oa ++ ob) -> Forall (fun x => x <= o) oa -> Forall (fun x => o < x) ob ->
+  StronglySorted Z.le (oa ++ o :: ob).
+Proof.
+  induction oa as [|x oa IH]; intros HS Hle Hgt; cbn [app] in *.
+  - constructor; [exact HS|]. eapply Forall_impl; [|exact Hgt]. cbn; intros; lia.
+  - inversion HS as [|y l HS' Hall]; subst. inversion Hle; subst.
+    constructor; [apply IH; assumption|].
+    apply Forall_app in Hall. destruct Hall as [Ha1 Ha2].
+    apply Forall_app; split; [exact Ha1|]. constructor; [lia|exact Ha2].
+Qed.
+End Sorted.
